@@ -343,6 +343,41 @@ def build(tier="quick", seed=0):
         pack.add(Obligation(name, lambda tier, name=name, named=named: prove_paths(name, th_grp_replace(named), judge_grp_replace(named)), replay=lambda w, named=named: {"call": "c15_grouped_replace", "args": {"named": named}}, functions=FU,
                             mode="two members that share a field name and hold different values"))
 
+    # a grouped record is a VIEW of its members: what it shows follows the members, also after it was read once
+    def th_grp_view():
+        A = it.call(RD, ["c15/ma", [("string", "x"), ("varint", "n")]], {})
+        B = it.call(RD, ["c15/mb", [("string", "y")]], {})
+        a = it.call(A, [], {"x": "old", "n": SInt(vals[0])})
+        g = it.call(GR, ["c15/grp", [a, it.call(B, [], {"y": "why"})]], {})
+        first = it.unbase(it.getattr_(g, "x"))
+        it.setattr_(a, "x", "new")  # the member is assigned directly
+        second = it.unbase(it.getattr_(g, "x"))
+        asd = it.unbase(it.call(it.getattr_(g, "_asdict"), [], {}).get("x"))
+        ext = it.call(base.g["extend_record"], [g, []], {})
+        it.setattr_(g, "x", "through the view")
+        return first, second, asd, it.unbase(ext.attrs.get("x")), it.unbase(a.attrs["x"]), it.unbase(it.getattr_(g, "x"))
+
+    pack.add(Obligation("C15.grouped.view[read, member assigned, read again]", lambda tier: prove_paths("C15.grouped.view[read, member assigned, read again]", th_grp_view,
+                        lambda p: (p.value == ("old", "new", "new", "new", "through the view", "through the view"), f"g.x before / after the member was assigned / in _asdict() / in extend_record(g) / member after g.x = ... / g.x: {p.value}")),
+                        replay=lambda w: {"call": "c15_grouped_view", "args": {}}, functions=FU, mode="concrete history on one grouped record"))
+
+    # composition is decided by the descriptors' fields, also for two descriptors whose identifiers coincide (same name, same unseparated field text)
+    def th_colliding():
+        A = it.call(RD, ["c15/col", [("wstring", "x")]], {})
+        B = it.call(RD, ["c15/col", [("string", "xw")]], {})
+        Z = it.call(RD, ["c15/z", [("varint", "z")]], {})
+        z = it.call(Z, [], {"z": 1})
+        e1 = it.call(base.g["extend_record"], [it.call(A, [], {"x": "1"}), [z]], {})
+        e2 = it.call(base.g["extend_record"], [it.call(B, [], {"xw": "2"}), [z]], {})
+        rw = it.call(st.g["RecordFieldRewriter"], [], {"fields": ["x", "xw"]})
+        p1 = it.call(it.getattr_(rw, "rewrite"), [it.call(A, [], {"x": "1"})], {})
+        p2 = it.call(it.getattr_(rw, "rewrite"), [it.call(B, [], {"xw": "2"})], {})
+        return fields_of(it.getattr_(e1, "_desc")), fields_of(it.getattr_(e2, "_desc")), it.unbase(e2.attrs.get("xw")), fields_of(it.getattr_(p1, "_desc")), fields_of(it.getattr_(p2, "_desc"))
+
+    pack.add(Obligation("C15.extend.history[two descriptors whose identifiers coincide]", lambda tier: prove_paths("C15.extend.history[two descriptors whose identifiers coincide]", th_colliding,
+                        lambda p: (p.value == ([("wstring", "x"), ("varint", "z")], [("string", "xw"), ("varint", "z")], "2", [("wstring", "x")], [("string", "xw")]), f"extended / projected descriptors {p.value}")),
+                        replay=lambda w: {"call": "c15_colliding", "args": {}}, functions=FU, mode="concrete history through extend_record and one rewriter"))
+
     # a member field whose name is one of GroupedRecord's own attributes
     for fname in ("name", "records", "descriptors", "flat_fields"):
         name = f"C15.grouped.collision[member field named {fname}]"
